@@ -100,7 +100,7 @@ def api_for(inp, n=0):
     return "kdtree"
 
 
-def replay_emitted(ctx, res, alphabets, classify=default_classify, every=1):
+def replay_emitted(ctx, res, alphabets, classify=default_classify, every=1, thin=None):
     """spec -> code: every behaviour TLC emitted is executed on the real code (under each concrete alphabet)."""
     drift_seen = 0
     n = 0
@@ -111,6 +111,8 @@ def replay_emitted(ctx, res, alphabets, classify=default_classify, every=1):
         if every > 1 and n % every:
             continue
         inp = doc["inp"]
+        if thin is not None and thin(inp) > 1 and n % thin(inp):
+            continue
         for a_i, letters in enumerate(alphabets):
             api = api_for(inp, n + a_i)
             bad, drift = nc.compare_case(doc, letters=letters, api=api)
